@@ -66,10 +66,12 @@ func c09WorldL(backend, logger string) (w *world.W, reopen func() *world.W, clea
 }
 
 func runC09(x *mc.X) {
-	mode := mc.Pick(x, "mode", []string{"freshness", "spelling", "history", "uri-length"})
+	mode := mc.Pick(x, "mode", []string{"freshness", "spelling", "history", "uri-length", "many-variants"})
 	switch mode {
 	case "uri-length":
 		runC09Length(x)
+	case "many-variants":
+		runC09Many(x)
 	case "freshness":
 		runC09Fresh(x)
 	case "spelling":
@@ -344,6 +346,50 @@ func runC09Length(x *mc.X) {
 	if o2.Tok != o1.Tok || len(o2.Calls) != 0 {
 		x.Failf(fmt.Sprintf("fresh response for a long URI not served from the store: backend=%s", backend), "URI of %d bytes (Vary: %v): %s", len(u), vary, o2)
 	}
+}
+
+// runC09Many: n variants of one URI are stored one after the other (storing a variant does not invalidate another),
+// then every one of them is requested again: each is answered from the store with its own response.
+func runC09Many(x *mc.X) {
+	backend := mc.Pick(x, "backend", c09Backends)
+	n := mc.Pick(x, "variants", []int{2, 9, 17, 33, 100})
+	field := mc.Pick(x, "field", []string{"X-Tenant", "Accept-Language"})
+	order := mc.Pick(x, "second-pass", []string{"same order", "reverse order"})
+	w, reopen, cleanup := c09World(backend)
+	defer cleanup()
+	answer(w, RS{Status: 200, H: H("Cache-Control", "max-age=100000", "Vary", field)})
+	toks := make([]string, n)
+	val := func(i int) string { return fmt.Sprintf("v%03d", i) }
+	for i := 0; i < n; i++ {
+		o := get(w, U, field, val(i))
+		toks[i] = o.Tok
+		if i < 3 || i == n-1 {
+			logObs(x, fmt.Sprintf("GET %s=%s (origin: 200, Vary: %s)", field, val(i), field), o)
+		}
+		world.Advance(secs(1))
+	}
+	w2 := reopen()
+	answer(w2, RS{Status: 200, H: H("Cache-Control", "no-store")})
+	x.Nontrivial(fmt.Sprintf("many-variants/%s/%d", backend, n))
+	lost := 0
+	for k := 0; k < n; k++ {
+		i := k
+		if order == "reverse order" {
+			i = n - 1 - k
+		}
+		o := get(w2, U, field, val(i))
+		if o.Panic != nil || o.Err != nil || toks[i] == "" {
+			continue
+		}
+		if o.Tok != toks[i] || len(o.Calls) != 0 {
+			if lost == 0 {
+				logObs(x, fmt.Sprintf("second pass: GET %s=%s", field, val(i)), o)
+				x.Failf(fmt.Sprintf("fresh variant not served from the store after other variants were stored: backend=%s", backend), "%d variants of one URI (Vary: %s), variant %s: %s", n, field, val(i), o)
+			}
+			lost++
+		}
+	}
+	x.State("many-variants", backend, fmt.Sprint(n), field, order, fmt.Sprint(lost))
 }
 
 // customC09 adds the URI part: every pair of strictly equivalent spellings must share stored responses.
